@@ -68,6 +68,8 @@ def check(src, rep):
             if isinstance(op, tuple) and op[0] == "other":
                 rep.violation("R2", "dlde.ModeDReader.read", "lines-other-growth", f"collected lines modified by {op[1]}", p.file, p1model.ploc(p, pp))
     rep.floor("stores covered", 5, 5)
+    from sa.cross import include
+    include(rep, src, "C01", {"R2"}, "R1", "a frame grows by exactly one octet per append (premise of the frame-length bound: the guard that discards over-long frames can fire)")
 
 
 def thorough(src, rep):
